@@ -50,7 +50,21 @@ def gen_cases(rep):
                 if e[9] and r.random() < 0.5:
                     sec = e[9][0][0]
                     e[12] = [[sec + r.choice([-100, 0, 1, 1000, 10**6]), r.choice([0, 5, 999999999])]]
+            # Mac OS metadata on some members (the pax writers emit it as a member of its own, written by a recursive
+            # header/data/finish in the middle of the entry's header)
+            if fmt in ("pax", "paxr") and not plain:
+                for e in ents:
+                    if r.random() < 0.25:
+                        e[19] |= 32
             out.append((fmt, opts, flt, bpb, bilb, ents, plain))
+        if fmt in ("pax", "paxr"):
+            macs = [C10.ent(path=b"m/plain.txt", size=700, body=b"A" * 700, mtime=(1000, 0)),
+                    C10.ent(path=b"m/with-finder-info.txt", size=9000, body=bytes((k * 5) & 0xff for k in range(9000)), mtime=(1001, 0), flags=32),
+                    C10.ent(path=b"m/short-body.bin", size=8192, body=b"B" * 100, mtime=(1002, 0), flags=32),
+                    C10.ent(path=b"m/empty", size=0, mtime=(1003, 0), flags=32),
+                    C10.ent(path=b"m/after.txt", size=5, body=b"after", mtime=(1004, 0))]
+            out.append((fmt, b"", b"", 0, -1, [list(e) for e in macs], False))
+            out.append((fmt, b"", b"gzip", 10240, 512, [list(e) for e in macs], False))
         # directed: names and link targets far longer than any fixed field (continuation records, extended headers,
         # long-name entries), all four time stamps set, creation time later than mtime
         long_name = b"dir/" + b"L" * 120 + b".txt"
